@@ -143,7 +143,7 @@ func evalC18(c C18Case, col *ev.Collector) string {
 var edgePts = []rune{0, 1, 0x7e, 0x7f, 0x80, 0x7ff, 0x800, 0xd7ff, 0xe000, 0xfffd, 0xffff, 0x10000, 0x10fffe, 0x10ffff}
 
 func genC18(t *rapid.T) C18Case {
-	n := rapid.IntRange(1, 12).Draw(t, "n")
+	n := rapid.IntRange(1, 20).Draw(t, "n")
 	var c C18Case
 	dense := rapid.Bool().Draw(t, "dense")
 	pt := func(label string) rune {
